@@ -395,7 +395,7 @@ def check_C18(tier):
         obs += E.hits_to_obs("R18.1", R181, h, n)
         rep.floor("%s: instances of round / round_nearest_tie_even" % cfg, n, 4)
         rep.add(cfg, obs)
-    rcl = ["default"] if tier == "quick" else ["default", "compact", "nostd", "nostd_compact"]
+    rcl = ["default"] if tier == "quick" else list(F.ALL_CONFIGS)
     jobs = [{"config": c, "mode": "dbg", "model": "valid", "kind": "fn", "target": "minimal_lexical::rounding::round", "pre": "round", "post": "round"} for c in rcl]
     jobs += [{"config": c, "mode": m, "model": "valid", "kind": "masks", "target": "masks"} for c in rcl for m in ("dbg", "rel")]
     results = run_jobs(jobs)
@@ -521,7 +521,7 @@ def check_C05(tier):
 # ---------------------------------------------------------------------------
 from . import e4props as E4  # noqa: E402
 
-E4_CONFIGS = ["default", "compact", "nostd", "nostd_compact"]     # alloc configurations: see DESIGN (HeapVec not modelled)
+E4_CONFIGS = list(F.ALL_CONFIGS)     # all eight: the heap back-end is analysed through the Vec summary
 A_E4 = [
     "A1: every loop runs, and every iterator yields, fewer than 2^62 times (replaces `no usize counter overflow`)",
     "A3: the summaries of core/std leaves in mlxsa/absint/summaries.py are faithful",
